@@ -808,6 +808,7 @@ func c13(c *h.Ctx) {
 	}
 	c13WriteInsideRead(c)
 	c13StaleDeadline(c)
+	c13DeadlineHistories(c)
 	// the opening handshake against its model; the JSON entry points
 	c13Hs(c)
 	c13JSON(c)
@@ -1212,6 +1213,125 @@ func c13StaleDeadline(c *h.Ctx) {
 				c.Case("stale-deadline", in, true)
 			}
 		}
+	}
+}
+
+// c13DeadlineHistories: random histories of data writes (under the connection's write deadline of the moment: none, not
+// yet passed, passed), control writes (each under the deadline of its call) and time passing, on a transport that
+// enforces its write deadline like a net.Conn; the transport may start with a stale deadline armed. Outcomes and wire
+// against the model (Model.WsDeadline under the fact read from conn.go) and against the specification in which a write
+// depends on its own deadline only (Props.C13.ws_deadline_own). Model time: half seconds; "now" is even, deadlines odd.
+func c13DeadlineHistories(c *h.Ctx) {
+	r := c.R.Fork()
+	for round := 0; round < c.N(150, 3000); round++ {
+		server := r.Bool()
+		tr := newWsFake(nil)
+		conn := ws.VerifNewConn(tr, server, 0, 256, false)
+		base := time.Now().Add(-10 * time.Second)
+		at := func(d int) time.Time { return base.Add(time.Duration(d)*time.Second + 500*time.Millisecond) }
+		t := 10
+		armed := "n"
+		if r.Chance(40) {
+			tr.SetWriteDeadline(at(0))
+			armed = "1"
+		}
+		connDl := "n"
+		var ops, desc []string
+		var got []string
+		id := 0
+		for k := 1 + r.Intn(8); k > 0; k-- {
+			switch r.Intn(5) {
+			case 0:
+				adv := r.Pick(2, 5)
+				t += adv
+				tr.Advance(time.Duration(adv) * time.Second)
+				desc = append(desc, fmt.Sprintf("%d s pass", adv))
+			case 1:
+				switch r.Intn(3) {
+				case 0:
+					conn.SetWriteDeadline(time.Time{})
+					connDl = "n"
+					desc = append(desc, "SetWriteDeadline(none)")
+				case 1:
+					conn.SetWriteDeadline(at(t + 3))
+					connDl = fmt.Sprint(2*(t+3) + 1)
+					desc = append(desc, "SetWriteDeadline(now+3.5s)")
+				default:
+					conn.SetWriteDeadline(at(t - 1))
+					connDl = fmt.Sprint(2*(t-1) + 1)
+					desc = append(desc, "SetWriteDeadline(now-0.5s)")
+				}
+			case 2, 3:
+				id++
+				var err error
+				way := r.Intn(3)
+				res := h.Safe(func() string {
+					switch way {
+					case 0:
+						err = conn.WriteMessage(ws.BinaryMessage, []byte{byte(id)})
+					case 1:
+						var w io.WriteCloser
+						if w, err = conn.NextWriter(ws.BinaryMessage); err == nil {
+							if _, err = w.Write([]byte{byte(id)}); err == nil {
+								err = w.Close()
+							}
+						}
+					default:
+						var pm *ws.PreparedMessage
+						if pm, err = ws.NewPreparedMessage(ws.BinaryMessage, []byte{byte(id)}); err == nil {
+							err = conn.WritePreparedMessage(pm)
+						}
+					}
+					return "ok"
+				})
+				ops = append(ops, fmt.Sprintf("d.%d.%s.%d", 2*t, connDl, id))
+				desc = append(desc, fmt.Sprintf("data #%d (way %d)", id, way))
+				got = append(got, b01(res == "ok" && err == nil))
+			default:
+				id++
+				dl, dlS, dlD := time.Time{}, "n", "no deadline"
+				switch r.Intn(3) {
+				case 1:
+					dl, dlS, dlD = at(t+1), fmt.Sprint(2*(t+1)+1), "deadline now+1.5s"
+				case 2:
+					dl, dlS, dlD = time.Now().Add(-time.Hour), "1", "deadline long past"
+				}
+				var err error
+				res := h.Safe(func() string {
+					err = conn.WriteControl(r.Pick(ws.PingMessage, ws.PongMessage), []byte{byte(id)}, dl)
+					return "ok"
+				})
+				ops = append(ops, fmt.Sprintf("c.%d.%s.%d", 2*t, dlS, id))
+				desc = append(desc, fmt.Sprintf("control #%d (%s)", id, dlD))
+				got = append(got, b01(res == "ok" && err == nil))
+			}
+		}
+		opsArg := "_"
+		if len(ops) > 0 {
+			opsArg = strings.Join(ops, ",")
+		}
+		var ids []string
+		rep := c.O.Call("ws.parse", roleStr(server), "0", h.Hex(tr.Written()))
+		if strings.HasPrefix(rep, "ok ") {
+			for _, f := range wsParseFrames(rep[3:]) {
+				if b := h.UnHex(f.Payload); len(b) == 1 {
+					ids = append(ids, fmt.Sprint(b[0]))
+				} else {
+					ids = append(ids, "?")
+				}
+			}
+		} else {
+			ids = []string{"unparsed:" + rep}
+		}
+		impl := strings.Join(got, "") + " " + strings.Join(ids, " ")
+		in := fmt.Sprintf("hs.deadline %s %s  (server=%v, transport starts with a stale deadline armed: %v; %s)", armed, opsArg, server, armed != "n", strings.Join(desc, "; "))
+		both := strings.SplitN(c.O.Call("hs.deadline", armed, opsArg), "|", 2)
+		if len(both) != 2 {
+			both = []string{both[0], "?"}
+		}
+		c.Eq("hs.deadline", in, impl, both[0])
+		c.Hold(impl == both[1], "deadline.history", in, impl, both[1])
+		c.Case(fmt.Sprintf("deadline-history/ops=%d,stale=%v,failures=%v", len(ops), armed != "n", strings.Contains(strings.Join(got, ""), "0")), in, len(ops) > 0)
 	}
 }
 
